@@ -123,7 +123,9 @@ def apply_op(pool, op):
     if k == "new":
         pool[op[1]] = lw.Circuit(op[2])
     elif k == "unitary":
-        pool[op[1]] = lw.Unitary(v_to_np(op[3]))
+        arr = v_to_np(op[3])
+        pool[op[1]] = lw.Unitary(arr)
+        arr[...] = 0          # the caller's buffer is reused: the circuit must hold its own copy of the block
     elif k == "bs":
         _, cid, m1, m2, R, L, conv = op
         pool[cid].bs(m1, m2, reflectivity=_bs_value(R), loss=_loss_value(L), convention=conv)
